@@ -1709,6 +1709,23 @@ impl Searcher {
     return dict(functions=[r], dropped=[d])
 
 
+def unit_parsetop(inj, scratch):
+    """Parser::parse: everything from `let fields = self.parse_fields()?;` to the end of the body (verbatim) on a shim Parser whose parse_* methods
+    are scripted by the harness."""
+    frag_begin(inj)
+    s = src('src/parser.rs', scratch)
+    it = s.fn('parse', impl='Parser')
+    m1 = s.find_one(r'let\s+fields\s*=\s*self\.parse_fields\(\)\?\s*;', s.body_span(it), what='Parser::parse: let fields = self.parse_fields()?;')
+    body = dedent(s.text[m1.start():it['close']].rstrip())
+    text = ('pub mod parsetop {\n' + H('frag_parsetop_prelude.rs') + '\nimpl Parser {\n// ---- verbatim: Parser::parse from `let fields = self.parse_fields()?;` to the end of the body ----\n'
+            'pub fn frag_assemble(&mut self, debug: bool) -> Result<Query, String> {\n' + body + '\n}\n}\n' + H('frag_parsetop.kani.rs') + '\n}\n')
+    inj.new_file(FRAG_FILE, text)
+    r, d = frag_record('parsetop::Parser::frag_assemble', 'src/parser.rs', 'fn Parser::parse / from `let fields = self.parse_fields()?;` to the end of the body (verbatim, as a method of a shim Parser)',
+                       body, body, ['parse_fields .. parse_output_format, parse_roots, parse_root_options, there_are_remaining_lexems -> scripted stand-ins that log their call; Query / Root / Expr -> shim types with the same field names; dbg! -> no-op'],
+                       'the clause parsers themselves (V: C10.parser.nopanic.*), the lexer loop in front (C10.lexer.*, C02.literal.empty)')
+    return dict(functions=[r], dropped=[d])
+
+
 def unit_rowflow(inj, scratch):
     frag_begin(inj)
     s = src('src/searcher.rs', scratch)
